@@ -420,3 +420,69 @@ func (p *Prog) fileOf(pos token.Pos) *ast.File {
 	}
 	return nil
 }
+
+// EntryPoints: the ProcessBuiltinFunction methods of every module type implementing vmcommon.BuiltinFunction.
+func (p *Prog) EntryPoints() []*ssa.Function {
+	n := p.NamedType("", "BuiltinFunction")
+	if n == nil {
+		return nil
+	}
+	iface, ok := n.Underlying().(*types.Interface)
+	if !ok {
+		return nil
+	}
+	return p.Implementations(iface, "ProcessBuiltinFunction")
+}
+
+// ReachableFrom: functions reachable from roots through static calls and module-resolved interface calls.
+func (p *Prog) ReachableFrom(roots []*ssa.Function) map[*ssa.Function]bool {
+	seen := map[*ssa.Function]bool{}
+	var work []*ssa.Function
+	for _, r := range roots {
+		if r != nil && !seen[r] {
+			seen[r] = true
+			work = append(work, r)
+		}
+	}
+	for len(work) > 0 {
+		fn := work[len(work)-1]
+		work = work[:len(work)-1]
+		for _, a := range fn.AnonFuncs {
+			if !seen[a] {
+				seen[a] = true
+				work = append(work, a)
+			}
+		}
+		for _, b := range fn.Blocks {
+			for _, in := range b.Instrs {
+				c, ok := in.(ssa.CallInstruction)
+				if !ok {
+					continue
+				}
+				for _, callee := range p.Callees(c) {
+					if callee != nil && !seen[callee] && len(callee.Blocks) > 0 && callee.Pkg != nil && strings.HasPrefix(callee.Pkg.Pkg.Path(), modPath) {
+						seen[callee] = true
+						work = append(work, callee)
+					}
+				}
+			}
+		}
+	}
+	return seen
+}
+
+// implementsMethod: fn is the implementation of method `method` of the root-package interface `iface` for its receiver type.
+func (p *Prog) implementsMethod(fn *ssa.Function, ifaceName, method string) bool {
+	if fn.Signature.Recv() == nil || fn.Name() != method {
+		return false
+	}
+	n := p.NamedType("", ifaceName)
+	if n == nil {
+		return false
+	}
+	iface, ok := n.Underlying().(*types.Interface)
+	if !ok {
+		return false
+	}
+	return types.Implements(fn.Signature.Recv().Type(), iface)
+}
